@@ -307,6 +307,66 @@ def go_build(prop, pkgdir):
     return binp
 
 
+def _run_watched(cmd, inp, env, stall, total):
+    """Run a driver, feeding inp; kill it when it has printed no new observation line for `stall` seconds (a case that
+    hangs must not hang the check) or after `total` seconds.  Returns (stdout, stderr-tail, returncode)."""
+    import threading
+    import queue
+    p = subprocess.Popen(cmd, stdin=subprocess.PIPE, stdout=subprocess.PIPE, stderr=subprocess.PIPE, text=True, env=env)
+    q = queue.Queue()
+    outl, errl = [], []
+
+    def rd_out():
+        for line in p.stdout:
+            outl.append(line)
+            if line.startswith("@@OBS "):
+                q.put(1)
+        q.put(None)
+
+    def rd_err():
+        for line in p.stderr:
+            errl.append(line)
+            if len(errl) > 200:
+                del errl[:100]
+
+    def wr_in():
+        try:
+            p.stdin.write(inp)
+            p.stdin.close()
+        except (BrokenPipeError, OSError):
+            pass
+    ts = [threading.Thread(target=f, daemon=True) for f in (rd_out, rd_err, wr_in)]
+    for t in ts:
+        t.start()
+    t0 = time.time()
+    why = None
+    while True:
+        try:
+            item = q.get(timeout=stall)
+        except queue.Empty:
+            why = "no answer for %d s (case hangs)" % stall
+            break
+        if item is None:
+            break
+        if time.time() - t0 > total:
+            why = "driver ran longer than %d s" % total
+            break
+    if why:
+        try:
+            p.kill()
+        except OSError:
+            pass
+    try:
+        rc = p.wait(timeout=30)
+    except subprocess.TimeoutExpired:
+        rc = -9
+    for t in ts[:2]:
+        t.join(timeout=5)
+    if why:
+        return "".join(outl), why, -9
+    return "".join(outl), "".join(errl), rc
+
+
 def run_driver(binp, cases, args=(), timeout_per_case=60, env=None, died_obs=None):
     """Feed cases (JSON lines) to the driver; it answers one JSON line per case.
     If the driver dies on a case, that case gets {"outcome":"died", ...} and the driver is
@@ -320,13 +380,8 @@ def run_driver(binp, cases, args=(), timeout_per_case=60, env=None, died_obs=Non
     try:
         while todo:
             inp = "".join(json.dumps(c) + "\n" for c in todo)
-            try:
-                p = subprocess.run([binp, sd] + list(args), input=inp, stdout=subprocess.PIPE, stderr=subprocess.PIPE,
-                                   text=True, env=e, timeout=timeout_per_case * len(todo) + 60)
-                out, err, rc = p.stdout, p.stderr, p.returncode
-            except subprocess.TimeoutExpired as ex:
-                out = ex.stdout.decode() if isinstance(ex.stdout, bytes) else (ex.stdout or "")
-                err, rc = "timeout", -9
+            out, err, rc = _run_watched([binp, sd] + list(args), inp, e, stall=max(150, timeout_per_case * 2),
+                                        total=timeout_per_case * len(todo) + 60)
             lines = [l[6:] for l in out.splitlines() if l.startswith("@@OBS ")]
             got = []
             for l in lines:
